@@ -91,11 +91,11 @@ template<class B> struct fixed_coarsening {   // a coarsening policy that replay
     fixed_coarsening(const params &p=params()) : prm(p), lvl(0) {}
     template<class Mx> std::tuple<std::shared_ptr<Mx>,std::shared_ptr<Mx>> transfer_operators(const Mx&) { if (lvl>=prm.P.size()) throw amgcl::error::empty_level(); auto r=std::make_tuple(std::make_shared<Mx>(*prm.P[lvl]),std::make_shared<Mx>(*prm.R[lvl])); ++lvl; return r; }
     template<class Mx> std::shared_ptr<Mx> coarse_operator(const Mx &A, const Mx &P, const Mx &R) const { return prm.scale==1.0f ? co::detail::galerkin(A,P,R) : co::detail::scaled_galerkin(A,P,R,prm.scale); } };
-template<class C, class R> static void rebuild_case(const Pattern &p, hx::Rng &rng, float over_interp, int mode) {   // mode 0: symbolic A' ; 1: scaled 4*A ; 2: sequence A' , A
-    std::string nm=std::string("rebuild/")+C::name()+"+"+R::name()+"/"+p.name+"/m"+std::to_string(mode)+(C::scaled()?"/oi"+std::to_string((int)(over_interp*100)):"");
+template<class C, class R> static void rebuild_case(const Pattern &p, hx::Rng &rng, float over_interp, int mode, bool smoother_terminated=false) {   // mode 0: symbolic A' ; 1: scaled 4*A ; 2: sequence A' , A
+    std::string nm=std::string("rebuild/")+C::name()+"+"+R::name()+"/"+p.name+"/m"+std::to_string(mode)+(C::scaled()?"/oi"+std::to_string((int)(over_interp*100)):"")+(smoother_terminated?"/smoother-terminated":"");
     hx::CaseOptions coo; coo.max_paths=8;
     hx::run_case(nm, [&]() {
-        hx::Rng r2(rng.s); SCrs A=hx::mmatrix(p,r2); int n=p.n; typedef typename Hier<C,R>::AMG AMG; typename AMG::params prm; prm.coarse_enough=2; prm.allow_rebuild=true; scalar s=1; float fs=1;
+        hx::Rng r2(rng.s); SCrs A=hx::mmatrix(p,r2); int n=p.n; typedef typename Hier<C,R>::AMG AMG; typename AMG::params prm; prm.coarse_enough=2; prm.allow_rebuild=true; if (smoother_terminated) prm.direct_coarse=false;   /* the last level is handled by the smoother, which must be rebuilt too */ scalar s=1; float fs=1;
         if constexpr (std::is_same<C,AG>::value) { prm.coarsening.over_interp=over_interp; s=agg_factor(over_interp); fs=1/over_interp; }
         AMG amg(std::tie(n,A.ptr,A.col,A.val),prm);
         std::vector<scalar> f=hx::sym_vector("f",n); std::vector<scalar> y0=apply_vec(amg,f);
@@ -110,13 +110,26 @@ template<class C, class R> static void rebuild_case(const Pattern &p, hx::Rng &r
                 if (it->solve) { size_t m=cur.size(); std::vector<scalar> g; for (size_t i=0;i<m;++i) g.push_back(var("g"+std::to_string(i),1.0+0.5*i)); NV G=hx::to_numa(g), X(m,false); for (size_t i=0;i<m;++i) X[i]=scalar(0); (*it->solve)(G,X); std::vector<scalar> Ax; for (size_t i=0;i<m;++i) { scalar t=0; for (size_t j=0;j<m;++j) t+=cur[i][j]*X[j]; Ax.push_back(t); } hx::prove_eq_vec("after rebuild: coarsest direct solver solves the new Galerkin system", Ax, g); }
                 break; } cur=triple(dense_of(*it->R),cur,dense_of(*it->P),s); } }
         // action equals a fresh hierarchy assembled from A' with the recorded operators
-        { typedef amgcl::amg<BE,fixed_coarsening,R::template type> FAMG; typename FAMG::params fp; fp.coarse_enough=2; fp.coarsening.P=Ps; fp.coarsening.R=Rs; fp.coarsening.scale=fs; std::shared_ptr<FAMG> freshp; try { freshp=std::make_shared<FAMG>(std::tie(n,A2.ptr,A2.col,A2.val),fp); } catch (const std::runtime_error &e) { if (std::string(e.what()).find("Zero")==std::string::npos) throw; return; } FAMG &fresh=*freshp;
+        { typedef amgcl::amg<BE,fixed_coarsening,R::template type> FAMG; typename FAMG::params fp; fp.coarse_enough=2; fp.direct_coarse=prm.direct_coarse; fp.coarsening.P=Ps; fp.coarsening.R=Rs; fp.coarsening.scale=fs; std::shared_ptr<FAMG> freshp; try { freshp=std::make_shared<FAMG>(std::tie(n,A2.ptr,A2.col,A2.val),fp); } catch (const std::runtime_error &e) { if (std::string(e.what()).find("Zero")==std::string::npos) throw; return; } FAMG &fresh=*freshp;
           hx::require("fresh hierarchy has the same number of levels", fresh.levels.size()==amg.levels.size());
           hx::prove_eq_vec("after rebuild(A') the preconditioner acts like a fresh hierarchy assembled from A' with the same transfer operators", apply_vec(amg,f), apply_vec(fresh,f)); }
         if (mode==1) { std::vector<scalar> y=apply_vec(amg,f), ref; for (auto &v : y0) ref.push_back(v/scalar(4)); hx::prove_eq_vec("rebuild with 4 A gives B/4", y, ref); }
         if (mode==2) { amg.rebuild(std::tie(n,A.ptr,A.col,A.val)); hx::prove_eq_vec("rebuilding with the original matrix restores the original action", apply_vec(amg,f), y0); }
     }, coo);
 }
+
+// value types with a non-trivial adjoint: R is the ADJOINT of P (blockwise transposed blocks), the coarse matrix is R A P.
+// 2x2 block values from a scalar SPD M-matrix viewed through adapter::block_matrix (blocks are not symmetric by themselves)
+#include <amgcl/adapter/block_matrix.hpp>
+#include <amgcl/value_type/static_matrix.hpp>
+static void block_step_case(const Pattern &p, hx::Rng &rng) { hx::run_case("step-block2x2/smoothed_aggregation/"+p.name, [&]() { typedef amgcl::static_matrix<scalar,2,2> Blk; typedef be::builtin<Blk> BB; typedef be::crs<Blk,ptrdiff_t,ptrdiff_t> BM;
+    hx::Rng r2(rng.s); SCrs A=hx::mmatrix(p,r2); auto Am=hx::to_amgcl(A); BM Ab(amgcl::adapter::block_matrix<Blk>(*Am)); co::smoothed_aggregation<BB>::params prm; co::smoothed_aggregation<BB> c(prm);
+    std::shared_ptr<BM> P, R; std::tie(P,R)=c.transfer_operators(Ab); auto Ac=c.coarse_operator(Ab,*P,*R);
+    auto expand=[&](const BM &Mx) { std::vector<std::vector<scalar>> d(Mx.nrows*2,std::vector<scalar>(Mx.ncols*2,scalar(0))); for (size_t I=0;I<Mx.nrows;++I) for (ptrdiff_t k=Mx.ptr[I];k<Mx.ptr[I+1];++k) for (int r=0;r<2;++r) for (int q=0;q<2;++q) d[I*2+r][Mx.col[k]*2+q]=d[I*2+r][Mx.col[k]*2+q]+Mx.val[k](r,q); return d; };
+    auto Pd=expand(*P), Rd=expand(*R), Cd=expand(*Ac), Ad=A.dense(); std::vector<scalar> a, b; for (size_t i=0;i<Pd.size();++i) for (size_t j=0;j<Pd[i].size();++j) { a.push_back(Rd[j][i]); b.push_back(Pd[i][j]); }
+    hx::prove_eq_vec("block values: R is the adjoint of P (scalar expansion: R = P^T)", a, b);
+    size_t n=Pd.size(), nc=Pd[0].size(); std::vector<scalar> cg, cr; for (size_t x=0;x<nc;++x) for (size_t y=0;y<nc;++y) { scalar t=0; for (size_t i=0;i<n;++i) { scalar u=0; for (size_t k=0;k<n;++k) if (!hx::is_zero_value(Ad[i][k])) u+=Ad[i][k]*Pd[k][y]; t+=Rd[x][i]*u; } cg.push_back(Cd[x][y]); cr.push_back(t); }
+    hx::prove_eq_vec("block values: coarse matrix = R A P (scalar expansion)", cg, cr); }); }
 
 int main(int argc, char **argv) {
     hx::parse_args(argc,argv); bool T=hx::thorough(); hx::Rng rng(hx::args().seed);
@@ -131,6 +144,7 @@ int main(int argc, char **argv) {
     for (auto &p : hp) for (unsigned ce : {1u,2u,3u,5u}) for (int dc=0;dc<2;++dc) {
         hier_case<AG,SP>(p,rng,ce,dc,1000,1.5f,false); hier_case<SA,SP>(p,rng,ce,dc,1000,1,false);
         if (ce==2 || T) { hier_case<RS,DJ>(p,rng,ce,dc,1000,1,false); hier_case<EM,GS>(p,rng,ce,dc,1000,1,false); hier_case<AG,GS>(p,rng,ce,dc,2,2.0f,false); hier_case<SA,DJ>(p,rng,ce,dc,1,1,false); hier_case<SA,SP>(p,rng,ce,dc,1000,1,true); } }
-    for (auto &p : hp) { if (p.n>9 && !T) continue; for (int mode=0;mode<3;++mode) { rebuild_case<AG,SP>(p,rng,1.5f,mode); rebuild_case<AG,DJ>(p,rng,2.5f,mode); rebuild_case<SA,SP>(p,rng,1,mode); if (mode!=0 || T) { rebuild_case<RS,GS>(p,rng,1,mode); rebuild_case<SA,GS>(p,rng,1,mode); } } }
+    for (auto &p : hp) { if (p.n>9 && !T) continue; for (int mode=0;mode<3;++mode) { rebuild_case<AG,SP>(p,rng,1.5f,mode); rebuild_case<AG,DJ>(p,rng,2.5f,mode); rebuild_case<SA,SP>(p,rng,1,mode); if (mode!=0 || T) { rebuild_case<RS,GS>(p,rng,1,mode); rebuild_case<SA,GS>(p,rng,1,mode); } if (mode!=2 || T) { rebuild_case<SA,SP>(p,rng,1,mode,true); rebuild_case<AG,DJ>(p,rng,1.5f,mode,true); } } }
+    for (auto &p : std::vector<Pattern>{hx::grid_pattern(3,2),hx::band_pattern(8,1),hx::grid_pattern(4,2)}) block_step_case(p,rng);
     return hx::finish();
 }
